@@ -52,7 +52,20 @@ def batchPairs (b : Bytes) : Option (List (Nat × Nat) × Option Nat) := do
     pure (rd64 s, rd32 u)
   pure (ps, num)
 
-def evalBatch (args : List String) (impl : String) : Option Verdict := do
+def evalBatch (args : List String) (impl0 : String) : Option Verdict := do
+  -- `<requests> ret=<reports handed back>/<URRs reported more than once>/<reports for URRs not asked for>`
+  let (impl, ret) := match splitOn1 impl0 ' ' with
+    | [a, b] => (a, b)
+    | _ => (impl0, "")
+  let v ← evalBatchReqs args impl
+  let total := (args.drop 1).foldl (fun acc t => acc + ((splitOn1 t ':').getD 1 "0").toNat?.getD 0) 0
+  let wantRet := s!"ret={total}/0/0"
+  if ret == "" then pure v else
+  pure { model := v.model ++ " " ++ wantRet,
+         propFails := v.propFails ++ (if ret == wantRet then [] else
+           [s!"C15 one query of {total} registered URRs (the data plane answers one report per URR asked for) handed back '{ret}' (reports / URRs reported more than once / reports for URRs not asked for); each URR's report is due exactly once: '{wantRet}'"]) }
+where
+ evalBatchReqs (args : List String) (impl : String) : Option Verdict := do
   let (nS, toks) ← match args with | n :: t => some (n, t) | [] => none
   let n ← nS.toNat?
   let input ← toks.mapM fun t => match splitOn1 t ':' with
@@ -134,6 +147,30 @@ def checkTick (d : DState) (p : Nat) (impl : String) : List String :=
           | _ => []
       | _ => [])
 
+/-- the (seid, urr, period) triples of a group dump `period:seid/u+u,seid/u;period:…` -/
+def dumpTriples (g : String) : List (Nat × Nat × Nat) :=
+  if g == "_" || g == "" then [] else
+  (splitOn1 g ';').flatMap fun grp =>
+    match splitOn1 grp ':' with
+    | [p, ents] =>
+      (splitOn1 ents ',').flatMap fun e =>
+        match splitOn1 e '/' with
+        | [sS, us] => (splitOn1 us '+').filterMap fun u => do pure (← parseHexNat sS, ← u.toNat?, ← p.toNat?)
+        | _ => []
+    | _ => []
+
+/-- C05 on the periodic server: removing the periodic URR of one session leaves the registrations of every other session
+    as they were (specification side: the registrations made so far) -/
+def checkOthers (d' : DState) (s u : Nat) (impl : String) : List String :=
+  match field impl "g" with
+  | none => []
+  | some g =>
+    let have_ := dumpTriples g
+    let lost := d'.reg.filter fun r => r.1 != s && !have_.contains r
+    if lost.isEmpty then [] else
+      [s!"C05 removing the periodic URR {u} of session {natHex s} ended the periodic reporting of other sessions: " ++
+       String.intercalate "," (lost.map fun r => s!"{natHex r.1}/{r.2.1} (period {r.2.2})") ++ " are no longer registered"]
+
 def eval (d : DState) (fn : String) (args : List String) (impl : String) : Option (DState × Verdict) := do
   let st := d.st
   match fn, args with
@@ -145,7 +182,7 @@ def eval (d : DState) (fn : String) (args : List String) (impl : String) : Optio
   | "perio.del", [s, u] =>
     let ev := Ev.del (← parseHexNat s) (← u.toNat?)
     let d' := { specStep d ev with st := step st ev }
-    pure (d', { model := stateShow d'.st, propFails := checkTickers d' impl })
+    pure (d', { model := stateShow d'.st, propFails := checkTickers d' impl ++ checkOthers d' (← parseHexNat s) (← u.toNat?) impl })
   | "perio.close", [] =>
     let d' := { specStep d .close with st := step st .close }
     pure (d', { model := stateShow d'.st, propFails := checkTickers d' impl })
